@@ -63,6 +63,9 @@ type Req struct {
 type Case struct {
 	Requests   []Req `json:"requests"`
 	Goroutines int   `json:"goroutines"`
+	// RespHeaders: the transports are configured with response headers of their own (none of them
+	// Content-Type, which stays negotiated per request)
+	RespHeaders bool `json:"resp_headers,omitempty"`
 }
 
 func hashOf(t string) string {
@@ -124,8 +127,13 @@ func (r Req) build() *http.Request {
 	return hr.Build()
 }
 
-func newHandler(s *proj.Server, apq map[string]string) *handler.Server {
-	h := hsrv.New(s, hsrv.Config{})
+func newHandler(s *proj.Server, apq map[string]string, respHeaders bool) *handler.Server {
+	cfg := hsrv.Config{}
+	if respHeaders {
+		// a fresh map per handler: what a server is configured with is its own
+		cfg.ResponseHeaders = map[string][]string{"X-Harness": {"configured"}, "Cache-Control": {"no-store"}}
+	}
+	h := hsrv.New(s, cfg)
 	h.SetQueryCache(lru.New[*ast.QueryDocument](3))
 	c := lru.New[string](100)
 	for k, v := range apq {
@@ -170,13 +178,13 @@ func check(c Case) *vfrun.Failure {
 	}
 	s := ss[0]
 	s.U.SetExec(univ.NewExec(plan.New(21))) // fallback; every request carries its own Exec
-	long := newHandler(s, nil)
+	long := newHandler(s, nil, c.RespHeaders)
 	if c.Goroutines <= 1 {
 		apq := map[string]string{}
 		var prev *Req
 		for i, r := range c.Requests {
 			got := serve(long, s, r)
-			fresh := serve(newHandler(s, apq), s, r)
+			fresh := serve(newHandler(s, apq, c.RespHeaders), s, r)
 			vfrun.Eval()
 			if got.status != fresh.status || got.ct != fresh.ct || !bytes.Equal(got.body, fresh.body) {
 				return vfrun.Failf("isolation.response-differs-from-fresh-server", "request %d of the history (%+v) answered\n  %d %q %s\nbut a fresh server answers it alone with\n  %d %q %s\nhistory: %+v", i, r, got.status, got.ct, got.body, fresh.status, fresh.ct, fresh.body, c.Requests[:i+1])
@@ -204,7 +212,7 @@ func check(c Case) *vfrun.Failure {
 	for _, t := range texts {
 		apq[hashOf(t)] = t
 	}
-	long = newHandler(s, apq)
+	long = newHandler(s, apq, c.RespHeaders)
 	type out struct {
 		r   Req
 		got answer
@@ -224,7 +232,7 @@ func check(c Case) *vfrun.Failure {
 	wg.Wait()
 	for _, rs := range res {
 		for _, o := range rs {
-			fresh := serve(newHandler(s, apq), s, o.r)
+			fresh := serve(newHandler(s, apq, c.RespHeaders), s, o.r)
 			vfrun.Eval()
 			if o.got.status != fresh.status || o.got.ct != fresh.ct || !bytes.Equal(o.got.body, fresh.body) {
 				return vfrun.Failf("isolation.response-differs-from-fresh-server", "[%d goroutines] request %+v answered\n  %d %q %s\nbut a fresh server answers it alone with\n  %d %q %s", c.Goroutines, o.r, o.got.status, o.got.ct, o.got.body, fresh.status, fresh.ct, fresh.body)
@@ -275,6 +283,7 @@ func gen(concurrent bool) func(t *rapid.T) Case {
 		if concurrent {
 			c.Goroutines = rapid.IntRange(2, 8).Draw(t, "goroutines")
 		}
+		c.RespHeaders = rapid.Bool().Draw(t, "respheaders")
 		return c
 	}
 }
